@@ -413,20 +413,37 @@ def r_valueform(sh, rep):
             defs.setdefault(n["pat"]["name"], []).append(n)
     if "cant_throw_condition" not in defs:
         raise AnchorMissing("let cant_throw_condition in inline_reducer")
-    for loc in defs["cant_throw_condition"]:
-        seen, work, ctors = set(), [loc["init"]], set()
+    helpers = {q.split("::")[-1]: fn for q, fn in all_fns(fj) if "body" in fn}
+
+    def admitted(exprs):
+        seen, work, ctors = set(), list(exprs), set()
         while work:
             e = work.pop()
             ctors |= _term_ctors_in(e)
             for n in walk(e):
-                if n["k"] == "Path" and n["p"] in defs and n["p"] not in seen and n["p"] != "cant_throw_condition":
-                    # only boolean helpers feed the condition; term bindings (arg_term) are scrutinees, not part of the set
+                if n["k"] == "Path" and n["p"] in defs and n["p"] not in seen:
+                    # only boolean helpers feed a condition; term bindings (arg_term) are scrutinees, not part of the set
                     for d in defs[n["p"]]:
-                        if d["init"]["k"] in ("Macro", "Binary", "Unary", "MethodCall") and (d["init"]["k"] != "MethodCall" or d["init"]["m"] in ("any", "all", "is_some", "is_none", "contains")):
+                        if d["init"]["k"] in ("Macro", "Binary", "Unary", "MethodCall") and (d["init"]["k"] != "MethodCall" or d["init"]["m"] in ("any", "all", "is_some", "is_none", "contains") or d["init"]["m"] in helpers):
                             seen.add(n["p"])
                             work.append(d["init"])
+                # predicate methods of shrinker.rs applied to the argument term: look inside
+                if n["k"] == "MethodCall" and n["m"] in helpers and n["m"] not in seen and n["recv"]["k"] == "Path" and n["recv"]["p"] in ("arg_term", "arg", "argument"):
+                    seen.add(n["m"])
+                    work.append(helpers[n["m"]]["body"])
+        return ctors
+
+    for loc in defs["cant_throw_condition"]:
+        ctors = admitted([loc["init"]])
         bad = sorted(ctors - VALUE_FORMS)
         rep.check(not bad and ctors, "R02-VALUEFORM", "inline_reducer#cant_throw_condition", sh.loc(SH, loc), "the inliner's cant_throw_condition admits Term::%s: only the value forms %s evaluate in one step without failing; an application (even of a builtin to a constant: one-argument builtins such as unIData are then saturated) can abort, and inlining it under a delay or lambda that never runs turns an aborting program into a succeeding one" % ("/".join(bad), sorted(VALUE_FORMS)), sample={"admitted": sorted(ctors)})
+    # every decision of inline_reducer that involves cant_throw_condition (inline under a binder, drop when unused) may only be
+    # widened by predicates over value forms
+    conds = [n["cond"] for n in walk(f["body"]) if n["k"] == "If" and any(x["k"] == "Path" and x["p"] == "cant_throw_condition" for x in walk(n["cond"]))]
+    conds += [d["init"] for name, ds in defs.items() for d in ds if name != "cant_throw_condition" and any(x["k"] == "Path" and x["p"] == "cant_throw_condition" for x in walk(d["init"]))]
+    ctors = admitted(conds)
+    bad = sorted(ctors - VALUE_FORMS)
+    rep.check(not bad, "R02-VALUEFORM", "inline_reducer#decisions-over-value-forms", sh.loc(SH, conds[0]) if conds else sh.loc(SH, f), "a condition of inline_reducer that decides to inline or to drop an argument additionally admits Term::%s (through a helper predicate or a widened disjunction): an application such as `unIData x` can fail, so dropping it when unused (or moving it under a binder) turns an aborting program into a succeeding one — and only in builds where the expression has that shape (silent vs traced)" % "/".join(bad), sample={"admitted": sorted(ctors), "conditions": len(conds)})
 
 
 # ---------------------------------------------------------------------------------------------------------
